@@ -907,3 +907,200 @@ pub(crate) fn ccbox_trace_roots_table() {
     kani::assert(words_of(y).0 == wy.0 && words_of(z).0 == wz.0, "CcBox::trace::roots::frame::other_objects");
     forget_env(env);
 }
+
+// ------------------------------------------------------------------------------------------------
+// C20: Cc is a transparent pointer — addresses, ptr_eq, forwarding trait impls
+// ------------------------------------------------------------------------------------------------
+/// Deref / AsRef / Borrow give the same address (box + offset_of(elem)) on a Cc and on its clones,
+/// and the address does not change across operations that do not free the object.
+//@ C20 | complete | deciding | feat=full,std | fn=Cc::deref,Cc::as_ref,Cc::borrow,Cc::ptr_eq,Cc::clone | timeout=600
+#[kani::proof]
+#[kani::unwind(9)]
+pub(crate) fn cc_addresses_stable_and_equal() {
+    let v: u64 = kani::any();
+    let a = new_contract(Leaf(v));
+    let base = raw_of(&a).as_ptr() as usize + elem_offset::<Leaf>();
+    let d0 = &*a as *const Leaf as usize;
+    let r0 = AsRef::<Leaf>::as_ref(&a) as *const Leaf as usize;
+    let b0 = Borrow::<Leaf>::borrow(&a) as *const Leaf as usize;
+    kani::assert(d0 == base && r0 == base && b0 == base, "Cc::deref::post::address_is_box_plus_elem_offset");
+    let a2 = a.clone();
+    kani::assert(&*a2 as *const Leaf as usize == base && AsRef::<Leaf>::as_ref(&a2) as *const Leaf as usize == base, "Cc::deref::post::clones_give_same_address");
+    kani::assert(Cc::ptr_eq(&a, &a2), "Cc::ptr_eq::post::true_for_same_allocation");
+    drop(a2); // buffers the object
+    a.mark_alive();
+    kani::assert(&*a as *const Leaf as usize == base && (*a).0 == v, "Cc::deref::post::address_stable_across_operations");
+    let other = Cc::new(Leaf(v));
+    kani::assert(!Cc::ptr_eq(&a, &other) && !Cc::ptr_eq(&other, &a), "Cc::ptr_eq::post::false_for_different_allocations");
+    kani::assert(Cc::ptr_eq(&other, &other), "Cc::ptr_eq::post::true_for_same_allocation");
+    core::mem::forget((a, other));
+}
+
+/// alignment: offset_of(elem) and the box alignment honour T for the layout grid
+#[repr(align(4096))]
+pub(crate) struct Page(pub [u8; 1]);
+unsafe impl Trace for Page {
+    fn trace(&self, _: &mut Context<'_>) {}
+}
+impl Finalize for Page {}
+#[repr(align(2))]
+pub(crate) struct Odd(pub [u8; 3]);
+unsafe impl Trace for Odd {
+    fn trace(&self, _: &mut Context<'_>) {}
+}
+impl Finalize for Odd {}
+fn layout_ok<T: Trace + 'static>() -> bool {
+    let l = Layout::new::<CcBox<T>>();
+    elem_offset::<T>() % core::mem::align_of::<T>() == 0
+        && l.align() >= core::mem::align_of::<T>()
+        && l.align() % core::mem::align_of::<T>() == 0
+        && l.size() >= elem_offset::<T>() + core::mem::size_of::<T>()
+}
+//@ C20 C03 | complete | deciding | feat=full,std | fn=CcBox::layout,Cc::new | timeout=600
+#[kani::proof]
+#[kani::unwind(9)]
+pub(crate) fn cc_layout_grid_alignment() {
+    kani::assert(layout_ok::<Zst>() && layout_ok::<Leaf>() && layout_ok::<Big>() && layout_ok::<Page>() && layout_ok::<Odd>() && layout_ok::<Node>() && layout_ok::<u8>() && layout_ok::<[u64; 512]>(),
+        "CcBox::layout::post::elem_offset_and_box_alignment_honour_T");
+    let p = Cc::new(Page([7]));
+    kani::assert(p.inner().layout() == Layout::new::<CcBox<Page>>() && (*p).0[0] == 7, "CcBox::layout::post::equals_creation_layout");
+    kani::assert(&*p as *const Page as usize == raw_of(&p).as_ptr() as usize + elem_offset::<Page>(), "Cc::deref::post::address_is_box_plus_elem_offset");
+    let o = Cc::new(Odd([1, 2, 3]));
+    kani::assert(o.inner().layout() == Layout::new::<CcBox<Odd>>() && (*o).0[2] == 3, "CcBox::layout::post::equals_creation_layout");
+    drop(p); // freed with the 4096-aligned layout (CBMC dealloc checks)
+    drop(o);
+    kani::assert(state(|s| sp::snap(s)).bytes == 0, "Cc::drop::last_owner::post::allocated_bytes_minus_box_size");
+}
+
+/// every comparison method on Cc<T> equals the same method on T, for all pairs of values, both for
+/// two allocations and for two pointers to the SAME allocation
+fn cmp_forwarding<T: Trace + PartialOrd + Copy + 'static>(x: T, y: T) {
+    let a = Cc::new(x);
+    let b = Cc::new(y);
+    kani::assert((a == b) == (x == y), "Cc::eq::post::same_as_T");
+    kani::assert((a != b) == (x != y), "Cc::ne::post::same_as_T");
+    kani::assert(a.partial_cmp(&b) == x.partial_cmp(&y), "Cc::partial_cmp::post::same_as_T");
+    kani::assert((a < b) == (x < y), "Cc::lt::post::same_as_T");
+    kani::assert((a <= b) == (x <= y), "Cc::le::post::same_as_T");
+    kani::assert((a > b) == (x > y), "Cc::gt::post::same_as_T");
+    kani::assert((a >= b) == (x >= y), "Cc::ge::post::same_as_T");
+    let a2 = a.clone();
+    kani::assert((a == a2) == (x == x) && (a != a2) == (x != x), "Cc::eq::post::same_as_T_for_same_allocation");
+    kani::assert(a.partial_cmp(&a2) == x.partial_cmp(&x) && (a <= a2) == (x <= x) && (a < a2) == (x < x) && (a >= a2) == (x >= x), "Cc::partial_cmp::post::same_as_T_for_same_allocation");
+    core::mem::forget((a, b, a2));
+}
+//@ C20 | complete | deciding | feat=full,std | fn=Cc::eq,Cc::partial_cmp,Cc::lt,Cc::le,Cc::gt,Cc::ge | timeout=600
+#[kani::proof]
+#[kani::unwind(9)]
+pub(crate) fn cc_cmp_forwarding_f32_all_pairs_incl_nan() {
+    cmp_forwarding::<f32>(kani::any(), kani::any());
+}
+//@ C20 | complete | deciding | feat=full,std | fn=Cc::eq,Cc::partial_cmp,Cc::lt,Cc::le,Cc::gt,Cc::ge,Cc::cmp | timeout=600
+#[kani::proof]
+#[kani::unwind(9)]
+pub(crate) fn cc_cmp_forwarding_i8_all_pairs() {
+    let (x, y): (i8, i8) = (kani::any(), kani::any());
+    cmp_forwarding::<i8>(x, y);
+    let a = Cc::new(x);
+    let b = Cc::new(y);
+    kani::assert(a.cmp(&b) == x.cmp(&y), "Cc::cmp::post::same_as_T");
+    core::mem::forget((a, b));
+}
+//@ C20 | complete | deciding | feat=full,std | fn=Cc::eq,Cc::partial_cmp,Cc::lt,Cc::le,Cc::gt,Cc::ge,Cc::cmp | timeout=900
+#[kani::proof]
+#[kani::unwind(9)]
+pub(crate) fn cc_cmp_forwarding_pairs_of_u8() {
+    let (p, q): ((u8, u8), (u8, u8)) = (kani::any(), kani::any());
+    cmp_forwarding::<(u8, u8)>(p, q);
+    let c = Cc::new(p);
+    let d = Cc::new(q);
+    kani::assert(c.cmp(&d) == p.cmp(&q), "Cc::cmp::post::same_as_T");
+    core::mem::forget((c, d));
+}
+
+/// Hash: the byte stream fed to an arbitrary Hasher is the one T feeds
+pub(crate) struct RecHasher {
+    pub buf: [u8; 8],
+    pub n: usize,
+    pub calls: u32,
+}
+impl Hasher for RecHasher {
+    fn finish(&self) -> u64 {
+        0
+    }
+    fn write(&mut self, bytes: &[u8]) {
+        self.calls += 1;
+        let mut i = 0;
+        while i < bytes.len() {
+            if self.n < 8 {
+                self.buf[self.n] = bytes[i];
+            }
+            self.n += 1;
+            i += 1;
+        }
+    }
+}
+//@ C20 | complete | deciding | feat=full,std | fn=Cc::hash,Cc::default | timeout=600
+#[kani::proof]
+#[kani::unwind(9)]
+pub(crate) fn cc_hash_and_default_forwarding() {
+    let x: u32 = kani::any();
+    let a = Cc::new(x);
+    let mut h1 = RecHasher { buf: [0; 8], n: 0, calls: 0 };
+    let mut h2 = RecHasher { buf: [0; 8], n: 0, calls: 0 };
+    a.hash(&mut h1);
+    x.hash(&mut h2);
+    kani::assert(h1.buf == h2.buf && h1.n == h2.n && h1.calls == h2.calls && h1.n == 4, "Cc::hash::post::same_byte_stream_as_T");
+    let p: (u8, i8) = kani::any();
+    let c = Cc::new(p);
+    let mut h3 = RecHasher { buf: [0; 8], n: 0, calls: 0 };
+    let mut h4 = RecHasher { buf: [0; 8], n: 0, calls: 0 };
+    c.hash(&mut h3);
+    p.hash(&mut h4);
+    kani::assert(h3.buf == h4.buf && h3.n == h4.n && h3.calls == h4.calls, "Cc::hash::post::same_byte_stream_as_T");
+    let d: Cc<u16> = Cc::default();
+    kani::assert(*d == u16::default() && d.strong_count() == 1, "Cc::default::post::default_value_fresh_allocation");
+    let e: Cc<(u8, bool)> = Default::default();
+    kani::assert(*e == (0, false), "Cc::default::post::default_value_fresh_allocation");
+    let f: Cc<u8> = Cc::from(7u8);
+    kani::assert(*f == 7 && f.strong_count() == 1, "Cc::from::post::value_stored");
+    core::mem::forget((a, c, d, e, f));
+}
+
+/// Debug / Display forward to T's impl (a probe payload records the calls); Pointer prints the value address
+pub(crate) struct FmtProbe(pub u8);
+unsafe impl Trace for FmtProbe {
+    fn trace(&self, _: &mut Context<'_>) {}
+}
+impl Finalize for FmtProbe {}
+pub(crate) static mut FMT_CALLS: (u32, u32) = (0, 0);
+impl Debug for FmtProbe {
+    fn fmt(&self, _f: &mut Formatter<'_>) -> fmt::Result {
+        unsafe { FMT_CALLS.0 += self.0 as u32 };
+        Ok(())
+    }
+}
+impl Display for FmtProbe {
+    fn fmt(&self, _f: &mut Formatter<'_>) -> fmt::Result {
+        unsafe { FMT_CALLS.1 += self.0 as u32 };
+        Err(fmt::Error)
+    }
+}
+pub(crate) struct Sink;
+impl fmt::Write for Sink {
+    fn write_str(&mut self, _: &str) -> fmt::Result {
+        Ok(())
+    }
+}
+//@ C20 | complete | deciding | feat=full,std | fn=Cc::fmt | timeout=900
+#[kani::proof]
+#[kani::unwind(9)]
+pub(crate) fn cc_debug_display_forwarding() {
+    let a = Cc::new(FmtProbe(3));
+    let mut s = Sink;
+    let r1 = fmt::write(&mut s, format_args!("{:?}", a));
+    kani::assert(r1.is_ok() && unsafe { FMT_CALLS } == (3, 0), "Cc::fmt::post::debug_forwards_to_T_once");
+    let r2 = fmt::write(&mut s, format_args!("{}", a));
+    kani::assert(r2.is_err() && unsafe { FMT_CALLS } == (3, 3), "Cc::fmt::post::display_forwards_to_T_once_and_returns_its_result");
+    core::mem::forget(a);
+}
